@@ -541,7 +541,7 @@ theorem base2_eq_S (T : List Nat) (hpos : 0 < T.getD 0 0 + T.getD 1 0) (n : Nat)
     have h1 := Finset.mem_range.mp hr
     have h2 : ¬ r < min (T.getD 1 0) n + 1 := fun h => hnr (Finset.mem_range.mpr h)
     have : T.getD 1 0 < r := by omega
-    simp [Nat.choose_eq_zero_of_lt this]
+    rw [Nat.choose_eq_zero_of_lt this, Nat.zero_mul]
   · apply Finset.sum_congr rfl
     intro r hr
     have h1 := Finset.mem_range.mp hr
